@@ -162,6 +162,9 @@ CANARIES = [
     ('writenode-count-one-more', 'C05', 'src/page.rs', '        self.count = n.data.len() as u64;', '        self.count = n.data.len() as u64 + 1;'),
     ('writenode-leaf-announced-as-branch', 'C15', 'src/page.rs', '                self.page_type = Page::TYPE_LEAF;\n                header_size = size_of::<LeafElement>() as u64;', '                self.page_type = Page::TYPE_BRANCH;\n                header_size = size_of::<LeafElement>() as u64;'),
     ('writenode-payload-after-a-gap', 'C05', 'src/page.rs', '        let mut buf = &mut buf[(total_header as usize)..];', '        let mut buf = &mut buf[(total_header as usize + 8)..];'),
+    ('new-child-parent-not-marked-dirty', 'C07', 'src/bucket.rs', '    fn new_child<\'a>(&\'a mut self, name: Bytes<\'b>) -> RefMut<InnerBucket<\'b>> {\n        self.dirty = true;\n', '    fn new_child<\'a>(&\'a mut self, name: Bytes<\'b>) -> RefMut<InnerBucket<\'b>> {\n'),
+    ('new-child-root-is-a-page', 'C07', 'src/bucket.rs', '            root: PageNodeID::Node(0),', '            root: PageNodeID::Page(0),'),
+    ('from-meta-starts-dirty', 'C07', 'src/bucket.rs', '            root: PageNodeID::Page(meta.root_page),\n            deleted: false,\n            dirty: false,', '            root: PageNodeID::Page(meta.root_page),\n            deleted: false,\n            dirty: true,'),
 ]
 
 
